@@ -88,9 +88,11 @@ impl MetaTypeName<'_> {
     #[inline]
     pub fn is_subtype(&self, sub: &MetaTypeName<'_>) -> bool {
         match (self, sub) {
-            (MetaTypeName::NonNull(super_type), MetaTypeName::NonNull(sub_type))
-            | (MetaTypeName::Named(super_type), MetaTypeName::NonNull(sub_type)) => {
+            (MetaTypeName::NonNull(super_type), MetaTypeName::NonNull(sub_type)) => {
                 MetaTypeName::create(super_type).is_subtype(&MetaTypeName::create(sub_type))
+            }
+            (_, MetaTypeName::NonNull(sub_type)) => {
+                self.is_subtype(&MetaTypeName::create(sub_type))
             }
             (MetaTypeName::Named(super_type), MetaTypeName::Named(sub_type)) => {
                 super_type == sub_type
